@@ -498,7 +498,15 @@ func (c22Engine) Execute(t *testing.T, c *simrun.Case, keepLog bool) *simrun.Out
 							case "withdraw":
 								k := map[int64]int64{0: 0, 1: 1, 2: 3, 3: 3}[op.Arg(1)%4]
 								idp.mu.Lock()
-								if idp.pub[k] {
+								npub := 0
+								for _, v := range idp.pub {
+									if v {
+										npub++
+									}
+								}
+								// (the IdP never withdraws its LAST key: the server rejects an empty key set as a failed
+								// fetch and keeps what it has, which is a defensible reading of "IdP misbehaves")
+								if idp.pub[k] && npub > 1 {
 									idp.pub[k] = false
 									delete(idp.gone, k)
 									idp.everOut[k] = true
